@@ -321,6 +321,45 @@ fn one_case(
     let b = |x: bool| if x { "1" } else { "0" };
     let ans = format!("rowSat={} mock={} gt={} lookups={} copies={}", b(real), b(mock_ok), b(gt), b(lk), b(cp));
     ctx.case(label, nontrivial, &op, &ans);
+    {
+        // `verify_at_rows` on a seeded random subset of the usable rows (gate rows and lookup-input
+        // rows drawn independently) and `assert_satisfied` (panics iff `verify` is `Err`) vs the
+        // Lean mirror `mockOKAt` / `mockOK` on the same dump.
+        let usable = n - (m.pk.get_vk().cs().blinding_factors() + 1);
+        let mut rr = ctx.rng(&format!("rows:{label}:{desc}"));
+        let dens = [0.0, 0.5, 0.9, 1.0][rr.gen_range(0..4)];
+        let gr: Vec<usize> = (0..usable).filter(|_| rr.gen_bool(dens)).collect();
+        let lr: Vec<usize> = (0..usable).filter(|_| rr.gen_bool(dens)).collect();
+        let at = mzkh::catch(|| mp.verify_at_rows(gr.clone().into_iter(), lr.clone().into_iter()).is_ok());
+        let asserted = mzkh::catch(|| mp.assert_satisfied()).is_ok();
+        match at {
+            Ok(at_ok) => {
+                let rows = |v: &Vec<usize>| list(v.iter().map(|r| r.to_string()).collect(), ",");
+                ctx.case(
+                    "satrows",
+                    nontrivial,
+                    &format!("satrows gr={} lr={} {}", rows(&gr), rows(&lr), &op[4..]),
+                    &format!("mockAt={} assert={}", b(at_ok), b(asserted)),
+                );
+                ctx.count(&format!("satrows:density={dens}:{}", if at_ok == mock_ok { "same-as-verify" } else { "weaker-than-verify" }));
+                if mock_ok && !at_ok {
+                    ctx.oracle_fail(
+                        &format!("verify-at-rows-stricter:{label}"),
+                        "MockProver::verify_at_rows on a subset of the rows rejects an assignment verify() accepts",
+                        json!({"case": desc, "gate_rows": gr, "lookup_rows": lr}),
+                    );
+                }
+            }
+            Err(p) => ctx.oracle_fail("mock-panic-at-rows", "MockProver::verify_at_rows panicked on valid row ids", json!({"case": desc, "panic": p})),
+        }
+        if asserted != mock_ok {
+            ctx.oracle_fail(
+                &format!("assert-satisfied-differs:{label}"),
+                "MockProver::assert_satisfied disagrees with MockProver::verify",
+                json!({"case": desc, "verify_ok": mock_ok, "assert_returned": asserted}),
+            );
+        }
+    }
     match ids {
         Some(l) => {
             ctx.case(&format!("ids-{}", if label == "honest" { "honest" } else { "faulted" }), nontrivial, &l.op, &l.ans);
@@ -392,6 +431,19 @@ fn run_member(ctx: &mut Ctx, fp: &FamParams, seed: u64, max_faults: usize, two_p
     let m = setup_member(fp, seed);
     domain_case(ctx, &m, seen_k);
     {
+        // `ConstraintSystem::degree()` / `blinding_factors()` and the number of permutation column
+        // sets as the running code computes them, vs the Lean mirror fed with the dumped
+        // expressions and query lists only (the `deg=`/`bl=` fields of the dump are ignored by it).
+        let cs = m.pk.get_vk().cs();
+        let sets = cs.permutation().get_columns().chunks(cs.degree() - 2).count();
+        ctx.case(
+            "csparams",
+            true,
+            &format!("csparams {}", m.ids_cs),
+            &format!("deg={} bl={} sets={} usable={}", cs.degree(), cs.blinding_factors(), sets, (1usize << m.k) - (cs.blinding_factors() + 1)),
+        );
+    }
+    {
         // what the identity list of this member consists of
         let cs = m.pk.get_vk().cs();
         let pc = cs.permutation().get_columns().len();
@@ -439,13 +491,36 @@ fn run_member(ctx: &mut Ctx, fp: &FamParams, seed: u64, max_faults: usize, two_p
         d["fault"] = json!({"cell": idx, "kind": format!("{kind:?}")});
         one_case(ctx, &m, &format!("fault-{kind:?}"), &c, &insts, true, seed, d);
     }
-    // public-input faults: one value of each instance column
+    // public-input sweep: EVERY position of every instance column edited by +1, by -1 and by a
+    // swap with the next position (cyclically) — the circuit is proven with the edited public
+    // input (committed columns) / verified against it (plain columns): verifier, MockProver and
+    // the Lean row semantics must agree; when a copy constraint the circuit requested (or a gate /
+    // lookup) pins the position they all reject (`requested-copy-violated` oracle of `one_case`).
+    let pinned = |col: usize, row: usize| {
+        m.copies.iter().any(|(a, b)| (a.0 == 'i' && a.1 == col && a.2 == row) || (b.0 == 'i' && b.1 == col && b.2 == row))
+    };
     for col in 0..insts.len() {
-        let mut bad = insts.clone();
-        bad[col][0] += F::ONE;
-        let mut d = desc0.clone();
-        d["fault"] = json!({"instance_col": col, "row": 0, "kind": "PlusOne"});
-        one_case(ctx, &m, "fault-instance", &base, &bad, true, seed, d);
+        let len = insts[col].len();
+        for row in 0..len {
+            for edit in ["PlusOne", "MinusOne", "SwapNext"] {
+                let mut bad = insts.clone();
+                match edit {
+                    "PlusOne" => bad[col][row] += F::ONE,
+                    "MinusOne" => bad[col][row] -= F::ONE,
+                    _ => bad[col].swap(row, (row + 1) % len),
+                }
+                let changed = bad != insts;
+                let pin = pinned(col, row) || (edit == "SwapNext" && pinned(col, (row + 1) % len));
+                ctx.count(&format!(
+                    "pi-edit:{}:{}",
+                    if !changed { "no-change" } else if pin { "pinned-by-copy" } else { "not-pinned-by-copy" },
+                    edit
+                ));
+                let mut d = desc0.clone();
+                d["fault"] = json!({"instance_col": col, "row": row, "kind": edit});
+                one_case(ctx, &m, "fault-instance", &base, &bad, changed, seed, d);
+            }
+        }
     }
 }
 
